@@ -20,6 +20,10 @@ type Access struct {
 	OffConst int64     // constant offset (sum of constant slice lows / index)
 	Val      ssa.Value // Put: the value written; Get: the value read (call result / load)
 	Kind     string    // u8, i16, i32, i64, f32, f64, const:<n>, ?
+	// for an access made inside a helper / closure: the written value in the helper's own
+	// terms and the binding of the helper's parameters to the caller's arguments
+	InnerVal ssa.Value
+	Bind     map[ssa.Value]ssa.Value
 }
 
 func byteOrderMethod(callee *types.Func) (width int64, put bool, ok bool) {
@@ -129,6 +133,13 @@ func helperAccesses(call *ssa.Call, depth int) []Access {
 			m.Off = off
 		}
 		if a.Put {
+			m.InnerVal = a.Val
+			m.Bind = map[ssa.Value]ssa.Value{}
+			for pi2, p2 := range callee.Params {
+				if pi2 < len(cc.Args) {
+					m.Bind[p2] = cc.Args[pi2]
+				}
+			}
 			// the written value in caller terms: the argument bound to the parameter it derives from
 			m.Val = call
 			BackSlice(a.Val, func(v ssa.Value) bool {
